@@ -32,8 +32,16 @@ Section C09.
   (* v outside the support of f: the result is f *)
   Theorem C09_outside_support (F G : bfun) v : indep F v -> forall e, F (upd e v (G e)) = F e.
   Proof. intros HI e. apply HI. Qed.
+  (* termination of compose: with fuel above three times the number of variable levels, no result ONLY IF the node table
+     filled up *)
+  Theorem C09_compose_fuel_bound mr f g rf rg v :
+    reachable mr -> liveh mr f rf -> liveh mr g rg ->
+    exists bound, forall fuel, (bound <= fuel)%nat -> mstep fuel mr (HCompose f v g) = None ->
+      exists s', sext (store mr) s' /\ Inv s' /\ storage_full node (tbl s').
+  Proof. exact (compose_step_fuel_bound nhash khash bmask cmask0 smask0 capacity cap_ok mr f g rf rg v). Qed.
 End C09.
 
 Print Assumptions C09_compose.
 Print Assumptions C09_as_ite.
 Print Assumptions C09_outside_support.
+Print Assumptions C09_compose_fuel_bound.
